@@ -89,6 +89,7 @@ def _collect(view: PathView, n1: str, n2: str) -> dict:
 
 def constructor_mirror(ctx: Ctx, rule1: str, rule2: str, rule3: str, rule4: str) -> None:
     fn = ctx.repo.func(INIT)
+    ctx.require_locals(INIT, ["params", "name"])
     p = fn.params()
     n1, n2 = p[2], p[3]
     # the three `if <cfg> is None: <cfg> = {defaults}` are special cases of an explicit configuration: analysed without them
